@@ -798,8 +798,21 @@ def run(ctx):
         texts.update(H.emit_ref(M))
         # composite chain rule (assembled stress = gradient of the composite energy) for the laws without direction invariants
         iso = [n for n, L in M["laws"].items() if set(L["invs"]) <= {1, 2, 3} and all(k in (1, 2, 3) for (k, a) in L["dW"])]
+        grad_chains = []
         for n in iso:
-            texts["Gen_HyperGrad_%s.v" % n] = H.emit_grad(M, M["laws"][n], tangent_block=(ctx.tier == "thorough"))
+            if ctx.tier == "thorough":
+                # stress gradient + rows 0-2 of the tangent, rows 3-5 (shear rows) in a second file
+                texts["Gen_HyperGrad_%s.v" % n] = H.emit_grad(M, M["laws"][n], True, rows=(0, 1, 2))
+                texts["Gen_HyperGradB_%s.v" % n] = H.emit_grad(M, M["laws"][n], True, rows=(3, 4, 5), with_stress=False)
+                grad_chains += [["Gen_HyperGrad_%s.v" % n], ["Gen_HyperGradB_%s.v" % n]]
+            else:
+                texts["Gen_HyperGrad_%s.v" % n] = H.emit_grad(M, M["laws"][n], tangent_block=False)
+        if ctx.tier != "thorough":
+            grad_chains = [["Gen_HyperGrad_%s.v" % n for n in iso]]
+        # laws with direction invariants (HolzapfelOgden): composite chain rule proved term by term of W (thorough tier)
+        termwise = [n for n in M["laws"] if n not in iso] if ctx.tier == "thorough" else []
+        for n in termwise:
+            texts["Gen_HyperGradT_%s.v" % n] = H.emit_grad_termwise(M, M["laws"][n])[0]
         for n, L in M["laws"].items():
             texts["Gen_Law_%s.v" % n] = H.emit_law_thms(L)
     except (TranslateError, SyntaxError, OSError, RecursionError) as ex:
@@ -881,21 +894,23 @@ def run(ctx):
     # ---- 2. proofs --------------------------------------------------------------------
     # C18_tac, C18_kinematics, C18_energy, C18_InvDefs, C18_pdderive, C18_gradtac are static (independent of the repo):
     # they live in coq/model and are built once by ensure_static (logical path EFModel)
-    ctx.copy_props("C18/C18_invariants.v", "C18/C18_gonzalez.v", "C18/C18_element.v")
+    ctx.copy_props("C18/C18_invariants.v", "C18/C18_gonzalez.v", "C18/C18_element.v", "C18/C18_element_energy.v")
     r0 = ctx.coq(["Gen_HyperLaws.v", "Gen_HyperComp.v"], timeout=300)
     chains = [["Gen_HyperInv.v", "C18_invariants.v"]]
     if energy_ok:
-        chains.append(["Gen_Gonzalez.v", "C18_gonzalez.v"])
+        chains.append(["Gen_Gonzalez.v", "C18_gonzalez.v"] + (["Gen_De.v", "C18_element.v", "C18_element_energy.v"] if de_ok else []))
+    elif de_ok:
+        chains.append(["Gen_De.v", "C18_element.v"])
     if NC is not None and r0.ok:
         chains.append(["Gen_NewtonCoefs.v"])
     if r0.ok:
-        chains += [["Gen_Law_%s.v" % n] for n in laws] + [["Gen_HyperRef.v"] + (["Gen_De.v", "C18_element.v"] if de_ok else [])]
-        chains += [["Gen_HyperGrad_%s.v" % n] for n in iso] if ctx.tier == "thorough" else [["Gen_HyperGrad_%s.v" % n for n in iso]]
+        chains += [["Gen_Law_%s.v" % n] + (["Gen_HyperGradT_%s.v" % n] if n in termwise else []) for n in laws] + [["Gen_HyperRef.v"]]
+        chains += grad_chains
     rcc = ctx.coq(["Gen_CC_defs.v"], timeout=300, count=False) if cc_files else None
     if rcc is not None and rcc.ok:
         chains += [[f] for f in cc_files]
     # longest chains first (HolzapfelOgden tables, kinematics + reference state + element, Clenshaw-Curtis sums)
-    weight = lambda fs: -sum({"Gen_Law_HolzapfelOgden.v": 45, "C18_kinematics.v": 35, "Gen_HyperRef.v": 12, "Gen_CC_sum.v": 47, "C18_element.v": 8}.get(f, 12 if f.startswith("Gen_HyperGrad") else 6) for f in fs)
+    weight = lambda fs: -sum({"Gen_Law_HolzapfelOgden.v": 45, "C18_kinematics.v": 35, "Gen_HyperRef.v": 12, "Gen_CC_sum.v": 47, "C18_element.v": 8}.get(f, (200 if f.startswith("Gen_HyperGradT") else 100 if ctx.tier == "thorough" and f.startswith("Gen_HyperGrad") else 12 if f.startswith("Gen_HyperGrad") else 6)) for f in fs)
     chains.sort(key=weight)
     with ThreadPoolExecutor(max_workers=min(4, os.cpu_count() or 2)) as ex:
         results = list(ex.map(lambda fs: ctx.coq(fs, timeout=900), chains))
